@@ -27,8 +27,7 @@ def cases_matrix():
     for st in STATUSES:
         for target in ("pattern", "unrelated"):
             for allow in (False, True):
-                out.append([{"status": st, "target": target}], ) if False else out.append(
-                    {"dirt": [{"status": st, "target": target}], "allow": allow})
+                out.append({"dirt": [{"status": st, "target": target}], "allow": allow})
     return out
 
 
@@ -73,15 +72,18 @@ class Dirty:
         self.matrix = cases_matrix()
 
     def total(self, tier):
-        return len(self.matrix) + (self._quick if tier == "quick" else self._thorough)
+        return 4 * len(self.matrix) + (self._quick if tier == "quick" else self._thorough)
 
     def deadline(self, tier):
         return 170 if tier == "quick" else 1500
 
     def gen(self, seed, index, tier):
-        if index < len(self.matrix):
-            case = dict(self.matrix[index])
+        if index < 4 * len(self.matrix):
+            case = dict(self.matrix[index % len(self.matrix)])
+            index4 = index // len(self.matrix)
             case["dirt"] = [dict(x, path=("a.txt" if x["target"] == "pattern" else "other.txt")) for x in case["dirt"]]
+            # flags that have nothing to do with the dirty check must not influence it
+            case["extra"] = [[], ["--ignore-vcs-tag"], ["--tag-scope", "branch"], ["--pin-increments"]][index4]
         else:
             rng = runner.rng_for(seed, self.name, index)
             dirt = []
@@ -96,7 +98,9 @@ class Dirty:
                 if path == "bumpver.toml" and st in ("added", "added_modified", "untracked", "renamed", "deleted_unstaged", "deleted_staged"):
                     st = rng.choice(["modified_unstaged", "modified_staged", "modified_both"])
                 dirt.append({"status": st, "target": target, "path": path})
-            case = {"dirt": dirt, "allow": rng.random() < 0.6}
+            case = {"dirt": dirt, "allow": rng.random() < 0.6,
+                    "extra": rng.choice([[], [], ["--ignore-vcs-tag"], ["--tag-scope", "global"], ["--tag-scope", "branch"],
+                                         ["--pin-increments"], ["--commit"], ["--tag-commit"], ["--no-push"]])}
         case["ops"] = [{"op": "update"}]
         return case
 
@@ -128,7 +132,7 @@ class Dirty:
                 raise invoker.HarnessError("git reports %r, expected %r for %s in state %s" % (porcelain, want, x["path"], x["status"]))
         head0 = rg.head()
         tags0 = rg.tags()
-        argv = ["update", "--patch", "--no-fetch"] + (["--allow-dirty"] if case["allow"] else [])
+        argv = ["update", "--patch", "--no-fetch"] + (["--allow-dirty"] if case["allow"] else []) + list(case.get("extra", []))
         res = invoker.invoke(d, argv, TODAY, fakevcs.VcsShim(None, forward_env=rg.env), fakevcs.HookShim({}))
         ctx.invocations += 1
         head1 = rg.head()
@@ -137,7 +141,7 @@ class Dirty:
         dirt = [x for x in case["dirt"] if x["status"] != "clean"]
         tracked_change = [x for x in dirt if x["status"] != "untracked"]
         pattern_dirty = [x for x in dirt if x["target"] == "pattern"]
-        key = tuple(sorted((x["status"], x["target"]) for x in dirt)) + (case["allow"],)
+        key = tuple(sorted((x["status"], x["target"]) for x in dirt)) + (tuple(case.get("extra", [])), case["allow"])
         ctx.nontriv(key)
         ctx.state(key[:-1])
         ctx.transition(key + (res.exit_code,))
